@@ -54,6 +54,7 @@ func runC06(c *core.Ctx) {
 	c06R5(c)
 	c06R6(c)
 	c06R7(c)
+	c06Limit(c, "C06.R9")
 }
 
 // qField: v is a load of q.<field> where q is the lookup query (free variable or parameter).
@@ -938,4 +939,54 @@ func atomTextP(a eng.Atom, f *ssa.Function) string {
 		return "!(" + s + ")"
 	}
 	return s
+}
+
+// c06Limit: the scan bound is the requested limit. The lookup loop runs while
+// len(matches) < q.Limit; outside the query constructor the Limit field may only be repaired
+// when negative (set to the constant 0 under q.Limit < 0) — any other write caps or changes
+// how many stored messages a request for the last N gets back.
+func c06Limit(c *core.Ctx, rule string) {
+	c.Rule(rule, "lookupQuery.Limit, the bound of the history scan loop, is written only by the query constructor/decoder, except `q.Limit = 0` under `q.Limit < 0`", 1)
+	n := 0
+	for _, f := range c.P.ScopeFuncs() {
+		if f.Pkg == nil || f.Pkg.Pkg.Path() != M+"provider/storage" {
+			continue
+		}
+		eng.Instrs(f, func(in ssa.Instruction) {
+			st, ok := in.(*ssa.Store)
+			if !ok {
+				return
+			}
+			fa, ok := st.Addr.(*ssa.FieldAddr)
+			if !ok {
+				return
+			}
+			owner, fl, base, ok := eng.FieldOf(fa)
+			if !ok || fl != "Limit" || !strings.HasSuffix(owner, "lookupQuery") {
+				return
+			}
+			n++
+			key := fmt.Sprintf("%s:write of lookupQuery.Limit", fnName(f))
+			if f.Name() == "newLookupQuery" {
+				c.OK(rule, key+" (constructor)", st.Pos(), "the constructor stores the requested limit")
+				return
+			}
+			neg := eng.LtPred("q.Limit < 0", true, func(x, y ssa.Value) bool {
+				b, isL := eng.LoadOfField(x, "Limit")
+				k, isC := eng.ConstInt(y)
+				return isL && isC && k == 0 && eng.SameValue(b, base)
+			})
+			g := eng.Guarded(st, neg)
+			k, isC := eng.ConstInt(st.Val)
+			if g.Guarded && g.Edges > 0 && isC && k == 0 {
+				c.OK(rule, key, st.Pos(), "only a negative limit is replaced (by 0)")
+			} else {
+				c.Fail(rule, key, st.Pos(), "the limit of a history query is overwritten ("+eng.Describe(st.Val)+") for requests that are not negative: the scan loop `len(matches) < q.Limit` then returns fewer (or other) messages than the last N asked for", g.Witness...)
+			}
+		})
+	}
+	c.Count("field_writes_analysed", n)
+	if n == 0 {
+		c.Undecided(rule, "writes", token.NoPos, "no write of lookupQuery.Limit found (the constructor should set it)")
+	}
 }
